@@ -160,6 +160,15 @@ func gInt(m obj, k string) (int, bool) {
 	return int(i), true
 }
 func gIntD(m obj, k string) int { i, _ := gInt(m, k); return i }
+
+// gReq reads a property the glTF schema REQUIRES: a document that omits it is not loadable, so the absence is
+// rendered as -1 (a huge natural on the Coq side: out of every range) instead of the schema default
+func gReq(m obj, k string) int {
+	if i, ok := gInt(m, k); ok {
+		return i
+	}
+	return -1
+}
 func gIntP(m obj, k string) *int {
 	if i, ok := gInt(m, k); ok {
 		return &i
@@ -230,7 +239,7 @@ func typeK(t string) int {
 }
 
 func texInfo(o obj) sTexInfo {
-	return sTexInfo{Index: gIntD(o, "index"), Exts: keys(gObj(o, "extensions"))}
+	return sTexInfo{Index: gReq(o, "index"), Exts: keys(gObj(o, "extensions"))}
 }
 
 func readDoc(js []byte) (summary, error) {
@@ -244,17 +253,17 @@ func readDoc(js []byte) (summary, error) {
 	s.Version = gStr(gObj(root, "asset"), "version")
 	for _, b := range gArr(root, "buffers") {
 		bo, _ := b.(obj)
-		s.Buffers = append(s.Buffers, gIntD(bo, "byteLength"))
+		s.Buffers = append(s.Buffers, gReq(bo, "byteLength"))
 		s.URI = gStr(bo, "uri")
 	}
 	for _, v := range gArr(root, "bufferViews") {
 		o, _ := v.(obj)
-		s.Views = append(s.Views, sView{gIntD(o, "buffer"), gIntD(o, "byteOffset"), gIntD(o, "byteLength"), gIntD(o, "target")})
+		s.Views = append(s.Views, sView{gReq(o, "buffer"), gIntD(o, "byteOffset"), gReq(o, "byteLength"), gIntD(o, "target")})
 	}
 	for _, v := range gArr(root, "accessors") {
 		o, _ := v.(obj)
-		a := sAcc{View: gIntP(o, "bufferView"), Off: gIntD(o, "byteOffset"), Comp: gIntD(o, "componentType"),
-			K: typeK(gStr(o, "type")), Count: gIntD(o, "count")}
+		a := sAcc{View: gIntP(o, "bufferView"), Off: gIntD(o, "byteOffset"), Comp: gReq(o, "componentType"),
+			K: typeK(gStr(o, "type")), Count: gReq(o, "count")}
 		a.Min, a.HasMin = gFs(o, "min")
 		a.Max, a.HasMax = gFs(o, "max")
 		s.Accs = append(s.Accs, a)
